@@ -1,13 +1,30 @@
 // C16 — parallel_range: exactly-once visits and a true hit reported under all schedules.
 // E-SCHED: the unmodified templates of Tools.hh are compiled against scheduler-controlled shims
 // (std::atomic -> vfs::Atomic, std::thread -> vfs::Thread, usleep -> yield) by macro retargeting
-// in this TU only; every interleaving of the scheduling points is enumerated by DFS with
-// visited-state pruning (engine/sched.hh).
+// in this TU only; every interleaving of the scheduling points — and, within a stated budget, every
+// placement of a spurious compare_exchange_weak failure — is enumerated by DFS with visited-state
+// pruning (engine/sched.hh).
+//
+// Sections (all run the same executor and oracle, they differ in the configuration family):
+//   interleavings  the round-1 family: uint64_t, ranges of 0..4 values, 1..3 workers, every true-set
+//   types_bounds   all eight IntT instantiations (signed/unsigned x 8/16/32/64 bit), ranges at the type
+//                  minimum / maximum / crossing zero / crossing 2^k, valid and invalid block sizes,
+//                  empty and reversed ranges, long sequential ranges, more workers than values
+//   spurious_cas   the same small configurations with a budget of 1 or 2 spurious weak-CAS failures
+//   env_histories  hardware_concurrency answers (num_threads = 0), the defaulted progress_fn argument,
+//                  histories of two or three calls inside one execution, calls made inside a catch
+//                  handler and from a destructor during stack unwinding
+#include <fcntl.h>
+#include <signal.h>
 #include <stdint.h>
+#include <sys/mman.h>
+#include <sys/wait.h>
 #include <unistd.h>
 
+#include <algorithm>
 #include <atomic>
 #include <functional>
+#include <limits>
 #include <stdexcept>
 #include <string>
 #include <system_error>
@@ -42,114 +59,298 @@ namespace {
 enum Fn { F_RANGE, F_BLOCKS, F_MULTI };
 const char* fn_name[] = {"parallel_range", "parallel_range_blocks", "parallel_range_blocks_multi"};
 
-struct Config {
-  Fn fn;
-  int width;        // 64 or 8 (IntT = uint64_t / uint8_t)
-  uint64_t start, n;
-  uint64_t block;
-  size_t threads;   // 0 = default (hardware_concurrency shim = 2)
-  uint32_t truth;   // bit i: callback returns true for start+i
-  bool progress;
-  int bound;        // preemption bound, -1 = none
-  bool keep_poll_history = false;  // true: do not merge states that differ only in the caller's poll-loop history
+enum Ty { U8, U16, U32, U64, I8, I16, I32, I64 };
+const char* ty_name[] = {"uint8_t", "uint16_t", "uint32_t", "uint64_t", "int8_t", "int16_t", "int32_t", "int64_t"};
+inline bool ty_signed(Ty t) { return t >= I8; }
+inline int ty_bits(Ty t) { return 8 << (t & 3); }
+// Values are carried as "ext": the IntT value converted to uint64_t (sign-extended for signed IntT).
+inline uint64_t ty_min(Ty t) { return ty_signed(t) ? (uint64_t)0 - ((uint64_t)1 << (ty_bits(t) - 1)) : 0; }
+inline uint64_t ty_max(Ty t) {
+  int b = ty_bits(t);
+  if (ty_signed(t)) return ((uint64_t)1 << (b - 1)) - 1;
+  return b == 64 ? ~(uint64_t)0 : (((uint64_t)1 << b) - 1);
+}
+std::string show(Ty t, uint64_t ext) {
+  return ty_signed(t) ? vf::fmt("%lld", (long long)(int64_t)ext) : vf::fmt("%llu", (unsigned long long)ext);
+}
+
+enum Progress { P_NULL, P_COUNTING, P_DEFAULT };  // P_DEFAULT: the argument is omitted (parallel_range_default_progress_fn)
+enum Ctx { CTX_PLAIN, CTX_IN_CATCH, CTX_IN_UNWIND };
+
+struct Call {
+  Fn fn = F_RANGE;
+  Ty ty = U64;
+  uint64_t start = 0;  // ext
+  int64_t len = 0;     // end = start + len; len < 0: reversed range (start > end), the set [start,end) is empty
+  uint64_t block = 0;
+  size_t threads = 1;  // 0 = default (hardware_concurrency shim)
+  uint32_t truth = 0;  // bit i: callback returns true for start+i
+  int progress = P_NULL;
+  uint64_t n() const { return len > 0 ? (uint64_t)len : 0; }
+  uint64_t end() const { return start + (uint64_t)len; }
   std::string str() const {
-    return vf::fmt("%s<uint%d_t>(range=[%llu,%llu), block=%llu, threads=%zu, true_set_mask=0x%x, progress_fn=%s, preemption_bound=%d)", fn_name[fn], width,
-        (unsigned long long)start, (unsigned long long)(start + n), (unsigned long long)block, threads, truth, progress ? (keep_poll_history ? "counting(unmerged poll history)" : "counting") : "nullptr", bound);
+    std::string s = vf::fmt("%s<%s>(range=[%s,%s)", fn_name[fn], ty_name[ty], show(ty, start).c_str(), show(ty, end()).c_str());
+    if (fn != F_RANGE) s += ", block=" + show(ty, block);
+    s += vf::fmt(", threads=%zu, true_set_mask=0x%x, progress_fn=%s)", threads, truth, progress == P_NULL ? "nullptr" : progress == P_COUNTING ? "counting" : "defaulted-argument");
+    return s;
+  }
+};
+
+struct Config {
+  std::vector<Call> calls;  // executed one after the other inside ONE execution (histories)
+  int bound = -1;           // preemption bound, -1 = none
+  bool keep_poll_history = false;  // true: do not merge states that differ only in the caller's poll-loop history
+  int spurious = 0;         // budget of spurious compare_exchange_weak failures per execution
+  unsigned hc = 2;          // answer of the hardware_concurrency shim
+  int ctx = CTX_PLAIN;
+  bool in_child = false;    // explore in a forked child (configurations that may die by a signal)
+  uint64_t max_sched = 0;   // 0 = section default
+  std::string str() const {
+    std::string s;
+    for (size_t i = 0; i < calls.size(); i++) s += (i ? " THEN " : "") + calls[i].str();
+    s += vf::fmt(" [preemption_bound=%d", bound);
+    if (keep_poll_history) s += ", unmerged poll history";
+    if (spurious) s += vf::fmt(", spurious_weak_cas_failures<=%d", spurious);
+    bool uses_hc = false;
+    for (auto& c : calls) uses_hc |= c.threads == 0;
+    if (uses_hc) s += vf::fmt(", hardware_concurrency()=%u", hc);
+    if (ctx == CTX_IN_CATCH) s += ", called inside a catch handler";
+    if (ctx == CTX_IN_UNWIND) s += ", called from a destructor during stack unwinding";
+    return s + "]";
   }
 };
 
 struct Obs { uint64_t value; size_t thread_num; };
 
+struct CallResult {
+  bool ran = false;
+  std::vector<Obs> log;
+  uint64_t ret = 0;              // ext
+  std::vector<uint64_t> retset;  // ext
+  bool threw = false, threw_logic = false;
+  std::string what;
+  uint64_t progress_calls = 0;
+};
+
 std::string g_outcome;  // observable outcome of the last execution (order of callback invocations + result)
 
 template <class IntT>
-std::string run_once(const Config& c, const std::vector<int>& prefix) {
+void do_call(const Call& c, CallResult& res) {
+  IntT start = (IntT)c.start, end = (IntT)c.end();
+  uint64_t n = c.n();
+  std::function<bool(IntT, size_t)> cb = [&res, &c, n](IntT v, size_t tn) {
+    res.log.push_back({(uint64_t)v, tn});
+    uint64_t off = (uint64_t)v - c.start;  // exact membership test: the range does not wrap in Z mod 2^64
+    return off < n && ((c.truth >> off) & 1);
+  };
+  std::function<void(IntT, IntT, IntT, uint64_t)> prog = nullptr;
+  if (c.progress == P_COUNTING) prog = [&res](IntT, IntT, IntT, uint64_t) { res.progress_calls++; };
+  res.ran = true;
+  try {
+    if (c.progress == P_DEFAULT) {
+      // the progress_fn argument is omitted: parallel_range_default_progress_fn<IntT> (writes to stderr)
+      if (c.fn == F_RANGE) res.ret = (uint64_t)phosg::parallel_range<IntT>(cb, start, end, c.threads);
+      else if (c.fn == F_BLOCKS) res.ret = (uint64_t)phosg::parallel_range_blocks<IntT>(cb, start, end, (IntT)c.block, c.threads);
+      else for (IntT v : phosg::parallel_range_blocks_multi<IntT>(cb, start, end, (IntT)c.block, c.threads)) res.retset.push_back((uint64_t)v);
+    } else {
+      if (c.fn == F_RANGE) res.ret = (uint64_t)phosg::parallel_range<IntT>(cb, start, end, c.threads, prog);
+      else if (c.fn == F_BLOCKS) res.ret = (uint64_t)phosg::parallel_range_blocks<IntT>(cb, start, end, (IntT)c.block, c.threads, prog);
+      else for (IntT v : phosg::parallel_range_blocks_multi<IntT>(cb, start, end, (IntT)c.block, c.threads, prog)) res.retset.push_back((uint64_t)v);
+    }
+  } catch (const vfs::AbortExecution&) {
+    throw;
+  } catch (const std::logic_error& e) {
+    res.threw = res.threw_logic = true;
+    res.what = e.what();
+  } catch (const std::exception& e) {
+    res.threw = true;
+    res.what = e.what();
+  }
+}
+
+void dispatch_call(const Call& c, CallResult& res) {
+  switch (c.ty) {
+    case U8: return do_call<uint8_t>(c, res);
+    case U16: return do_call<uint16_t>(c, res);
+    case U32: return do_call<uint32_t>(c, res);
+    case U64: return do_call<uint64_t>(c, res);
+    case I8: return do_call<int8_t>(c, res);
+    case I16: return do_call<int16_t>(c, res);
+    case I32: return do_call<int32_t>(c, res);
+    case I64: return do_call<int64_t>(c, res);
+  }
+}
+
+// The reference model.  Returns "" when everything the statement entails holds for this call.
+//   valid call  := parallel_range with any range; the _blocks functions with start <= end, block >= 1
+//                  dividing end - start; at least one worker thread.
+//   A valid call must not throw.  When no callback returns true: every value of [start,end) is
+//   invoked exactly once and the result is end_value (_multi: the set of true values).  When some
+//   callback returns true: the result is a value whose callback returned true.  Always: nothing
+//   outside [start,end), nothing twice, thread numbers in [0, num_threads).
+//   Invalid calls (block does not divide, reversed range with a block size, zero workers because
+//   hardware_concurrency() is 0) are a don't-care class if they throw; if they do not throw, only the
+//   "never outside, never twice, thread numbers" part is compared.
+std::string oracle(const Call& c, const CallResult& res, unsigned hc, std::string* cls) {
+  uint64_t n = c.n();
+  size_t nthreads = c.threads ? c.threads : hc;
+  bool valid = nthreads >= 1 && (c.fn == F_RANGE || (c.len >= 0 && c.block >= 1 && (uint64_t)c.len % c.block == 0));
+  Ty ty = c.ty;
+  if (res.threw) {
+    if (valid) return "threw " + std::string(res.threw_logic ? "std::logic_error" : "an exception") + " (\"" + res.what + "\") on a valid call";
+    *cls = "invalid-call-rejected";
+    return "";
+  }
+  std::vector<int> count(n, 0);
+  for (auto& o : res.log) {
+    uint64_t off = o.value - c.start;
+    if (off >= n) return vf::fmt("callback invoked for %s, outside [%s,%s)", show(ty, o.value).c_str(), show(ty, c.start).c_str(), show(ty, c.end()).c_str());
+    if (o.thread_num >= nthreads) return vf::fmt("callback got thread_num %zu with %zu threads", o.thread_num, nthreads);
+    if (++count[off] > 1) return vf::fmt("callback invoked twice for %s", show(ty, o.value).c_str());
+  }
+  if (!valid) {
+    *cls = "invalid-call-not-rejected";
+    return "";
+  }
+  uint32_t truth = n >= 32 ? c.truth : (c.truth & (((uint32_t)1 << n) - 1));
+  if (c.fn == F_MULTI) {
+    for (uint64_t i = 0; i < n; i++)
+      if (count[i] != 1) return vf::fmt("value %s invoked %d times (all values must be visited exactly once by _multi)", show(ty, c.start + i).c_str(), count[i]);
+    std::vector<int> in(n, 0);
+    for (uint64_t v : res.retset) {
+      uint64_t off = v - c.start;
+      if (off >= n) return "_multi result contains " + show(ty, v) + ", a value outside the range";
+      in[off]++;
+    }
+    for (uint64_t i = 0; i < n; i++) {
+      bool want = (truth >> i) & 1;
+      if ((in[i] != 0) != want) return vf::fmt("_multi result %s %s", in[i] ? "contains a value whose callback returned false:" : "misses a true value:", show(ty, c.start + i).c_str());
+    }
+    *cls = "multi-ok";
+    return "";
+  }
+  if (truth == 0) {
+    for (uint64_t i = 0; i < n; i++)
+      if (count[i] != 1) return vf::fmt("callback never true, but value %s was invoked %d times", show(ty, c.start + i).c_str(), count[i]);
+    if (res.ret != c.end()) return vf::fmt("callback never true, but the call returned %s instead of end_value %s", show(ty, res.ret).c_str(), show(ty, c.end()).c_str());
+    *cls = n ? "no-hit-all-visited" : "empty-range";
+    return "";
+  }
+  uint64_t off = res.ret - c.start;
+  if (off >= n || !((truth >> off) & 1))
+    return vf::fmt("some callback returned true, but the call returned %s, for which the callback did not return true", show(ty, res.ret).c_str());
+  if (count[off] != 1) return vf::fmt("returned value %s was never passed to the callback", show(ty, res.ret).c_str());
+  *cls = "hit-returned";
+  return "";
+}
+
+std::string g_class;  // outcome class of the last execution (last call)
+size_t g_fail_call = 0;  // index of the call a failure of the last execution belongs to
+
+struct UnwindGuard {
+  std::function<void()> f;
+  bool* swallowed;
+  ~UnwindGuard() {
+    try {
+      f();
+    } catch (const vfs::AbortExecution&) {
+      *swallowed = true;  // must not leave a destructor that runs during unwinding
+    }
+  }
+};
+
+std::string run_cfg(const Config& c, const std::vector<int>& prefix) {
   vfs::Scheduler& S = vfs::Scheduler::get();
-  std::vector<Obs> log;
+  std::vector<CallResult> res(c.calls.size());
+  S.spurious_budget = c.spurious;
+  S.hardware_concurrency = c.hc;
   S.begin(prefix);
   // The caller's progress loop is `while (load() < end) { progress_fn(); usleep(); }`: nothing but
   // the value just loaded survives an iteration, so its observation history may be forgotten at
   // each usleep return (states merged have identical futures).  keep_poll_history configurations
   // run un-merged as a cross-check of this argument.
   S.reset_obs_on_yield = !c.keep_poll_history;
+  size_t calls_done = 0;
   S.extra_state = [&]() {
-    uint64_t h = 0;
-    for (auto& o : log) {
-      uint64_t x = (o.value * 0x9e3779b97f4a7c15ull) ^ ((o.thread_num + 1) * 0xc2b2ae3d27d4eb4full);
-      x ^= x >> 32;
-      h += x * 0xff51afd7ed558ccdull;  // commutative: the oracle reads the log as a multiset
-    }
+    uint64_t h = calls_done * 0x2545f4914f6cdd1dull;
+    for (size_t k = 0; k < res.size(); k++)
+      for (auto& o : res[k].log) {
+        uint64_t x = (o.value * 0x9e3779b97f4a7c15ull) ^ ((o.thread_num + 1) * 0xc2b2ae3d27d4eb4full) ^ ((k + 1) * 0x165667b19e3779f9ull);
+        x ^= x >> 32;
+        h += x * 0xff51afd7ed558ccdull;  // commutative: the oracle reads each log as a multiset
+      }
     return h;
   };
-  IntT start = (IntT)c.start, end = (IntT)(c.start + c.n);
-  std::function<bool(IntT, size_t)> cb = [&](IntT v, size_t tn) {
-    log.push_back({(uint64_t)v, tn});
-    uint64_t off = (uint64_t)v - c.start;
-    return (uint64_t)v >= c.start && off < c.n && ((c.truth >> off) & 1);
-  };
-  uint64_t progress_calls = 0;
-  std::function<void(IntT, IntT, IntT, uint64_t)> prog = nullptr;
-  if (c.progress) prog = [&](IntT, IntT, IntT, uint64_t) { progress_calls++; };
-  IntT ret = end;
-  std::unordered_set<IntT> retset;
-  std::string thrown;
-  try {
-    if (c.fn == F_RANGE) ret = phosg::parallel_range<IntT>(cb, start, end, c.threads, prog);
-    else if (c.fn == F_BLOCKS) ret = phosg::parallel_range_blocks<IntT>(cb, start, end, (IntT)c.block, c.threads, prog);
-    else retset = phosg::parallel_range_blocks_multi<IntT>(cb, start, end, (IntT)c.block, c.threads, prog);
-  } catch (const vfs::AbortExecution&) {
-  } catch (const std::exception& e) {
-    thrown = e.what();
-  }
-  bool workers_done = true;
-  for (size_t i = 1; i < S.nthreads(); i++) workers_done &= S.finished((int)i);
-  S.extra_state = nullptr;
-  if (S.was_aborted()) return "";  // deadlock/livelock/divergence flags are reported by the explorer
-  // A worker that outlives the call would touch the call's destroyed locals (and std::thread's
-  // destructor would have called std::terminate): report without running it any further.
-  if (!workers_done) return "a worker thread was still running when the call returned (not joined)";
-  if (S.ex.unjoined_destroyed) return "a joinable thread object was destroyed (std::thread would call std::terminate)";
-  S.end();
-  if (!thrown.empty()) return "threw " + thrown;
-  size_t nthreads = c.threads ? c.threads : 2;
-  g_outcome.clear();
-  for (auto& o : log) g_outcome += vf::fmt("%llu@%zu ", (unsigned long long)o.value, o.thread_num);
-  g_outcome += vf::fmt("-> %llu", (unsigned long long)ret);
-  std::vector<int> count(c.n, 0);
-  for (auto& o : log) {
-    if (o.value < c.start || o.value - c.start >= c.n) return vf::fmt("callback invoked for %llu, outside [%llu,%llu)", (unsigned long long)o.value, (unsigned long long)c.start, (unsigned long long)(c.start + c.n));
-    if (o.thread_num >= nthreads) return vf::fmt("callback got thread_num %zu with %zu threads", o.thread_num, nthreads);
-    if (++count[o.value - c.start] > 1) return vf::fmt("callback invoked twice for %llu", (unsigned long long)o.value);
-  }
-  bool any_true = c.truth != 0;
-  if (c.fn == F_MULTI) {
-    for (uint64_t i = 0; i < c.n; i++)
-      if (count[i] != 1) return vf::fmt("value %llu invoked %d times (all values must be visited exactly once by _multi)", (unsigned long long)(c.start + i), count[i]);
-    for (uint64_t i = 0; i < c.n; i++) {
-      bool in = retset.count((IntT)(c.start + i)) != 0;
-      if (in != (bool)((c.truth >> i) & 1)) return vf::fmt("_multi result %s %llu", in ? "contains a value whose callback returned false:" : "misses a true value:", (unsigned long long)(c.start + i));
+  std::string early;  // failure decided when a call returns (thread lifetime)
+  auto body = [&]() {
+    for (size_t k = 0; k < c.calls.size(); k++) {
+      dispatch_call(c.calls[k], res[k]);
+      calls_done = k + 1;
+      if (S.was_aborted()) return;
+      bool workers_done = true;
+      for (size_t i = 1; i < S.nthreads(); i++) workers_done &= S.finished((int)i);
+      // A worker that outlives the call would touch the call's destroyed locals (and std::thread's
+      // destructor would have called std::terminate): report without running it any further.
+      if (!workers_done) { early = "a worker thread was still running when the call returned (not joined)"; return; }
+      if (S.ex.unjoined_destroyed) { early = "a joinable thread object was destroyed (std::thread would call std::terminate)"; return; }
     }
-    if (retset.size() != (size_t)__builtin_popcount(c.truth)) return "_multi result contains values outside the range";
-    return "";
+  };
+  bool swallowed = false;
+  try {
+    if (c.ctx == CTX_PLAIN) body();
+    else if (c.ctx == CTX_IN_CATCH) {
+      try {
+        throw std::runtime_error("outer exception being handled");
+      } catch (const std::runtime_error&) {
+        body();
+      }
+    } else {
+      try {
+        UnwindGuard g{body, &swallowed};
+        throw std::runtime_error("outer exception propagating");
+      } catch (const std::runtime_error&) {
+      }
+    }
+  } catch (const vfs::AbortExecution&) {
   }
-  if (!any_true) {
-    for (uint64_t i = 0; i < c.n; i++)
-      if (count[i] != 1) return vf::fmt("callback never true, but value %llu was invoked %d times", (unsigned long long)(c.start + i), count[i]);
-    if (ret != end) return vf::fmt("callback never true, but the call returned %llu instead of end_value %llu", (unsigned long long)ret, (unsigned long long)end);
-    return "";
+  S.extra_state = nullptr;
+  if (S.was_aborted() || swallowed) return "";  // deadlock/livelock/divergence flags are reported by the explorer
+  g_fail_call = calls_done ? calls_done - 1 : 0;
+  if (!early.empty()) return (c.calls.size() > 1 ? vf::fmt("call #%zu: ", calls_done) : std::string()) + early;
+  S.end();
+  g_outcome.clear();
+  g_class.clear();
+  for (size_t k = 0; k < c.calls.size(); k++) {
+    const Call& cl = c.calls[k];
+    for (auto& o : res[k].log) g_outcome += show(cl.ty, o.value) + vf::fmt("@%zu ", o.thread_num);
+    if (res[k].threw) g_outcome += "-> threw; ";
+    else if (cl.fn == F_MULTI) g_outcome += vf::fmt("-> set of %zu; ", res[k].retset.size());
+    else g_outcome += "-> " + show(cl.ty, res[k].ret) + "; ";
+    std::string cls;
+    std::string f = oracle(cl, res[k], c.hc, &cls);
+    g_fail_call = k;
+    if (!f.empty()) return (c.calls.size() > 1 ? vf::fmt("call #%zu (%s): ", k + 1, cl.str().c_str()) : std::string()) + f;
+    g_class = cls;
   }
-  uint64_t off = (uint64_t)ret - c.start;
-  if ((uint64_t)ret < c.start || off >= c.n || !((c.truth >> off) & 1))
-    return vf::fmt("some callback returned true, but the call returned %llu, for which the callback did not return true", (unsigned long long)ret);
-  if (count[off] != 1) return vf::fmt("returned value %llu was never passed to the callback", (unsigned long long)ret);
   return "";
 }
 
-std::string run_cfg(const Config& c, const std::vector<int>& prefix) {
-  return c.width == 8 ? run_once<uint8_t>(c, prefix) : run_once<uint64_t>(c, prefix);
+// ---- configuration families -------------------------------------------------------------------------
+
+Call mk(Fn fn, Ty ty, uint64_t start, int64_t len, uint64_t block, size_t threads, uint32_t truth, int progress = P_NULL) {
+  Call c;
+  c.fn = fn; c.ty = ty; c.start = start; c.len = len; c.block = block; c.threads = threads; c.truth = truth; c.progress = progress;
+  return c;
+}
+Config one(const Call& c, int bound = -1) {
+  Config k;
+  k.calls.push_back(c);
+  k.bound = bound;
+  return k;
 }
 
-std::vector<Config> configs(bool thorough) {
+// round-1 family (uint64_t): every true-set, every dividing block size, progress on/off
+std::vector<Config> configs_base(bool thorough) {
   std::vector<Config> out;
   for (int f = 0; f < 3; f++) {
     for (uint64_t n = 0; n <= 4; n++) {
@@ -166,18 +367,31 @@ std::vector<Config> configs(bool thorough) {
               for (uint64_t s : {5ull, 0ull}) {
                 // start 0 adds nothing to the interleaving structure; it is kept for the
                 // smallest ranges only (where `if (current_value)`-style zero tests would show)
-                if (s == 0 && (n > 2 || t > 2) && !thorough) continue;
+                if (s == 0 && (n > 2 || t > 2)) continue;
                 int bound = -1;
-                // quick: the largest configurations are preemption-bounded
+                uint64_t cap = 0;
+                bool big = t == 3 && n >= 4 && (f == F_RANGE || b == 1);  // 4 single-value claims by 3 workers
                 if (!thorough) {
+                  // quick: the largest configurations are preemption-bounded
                   if (t == 3 && n >= 4) bound = 2;
                   if (t == 3 && n == 3 && prog) bound = 3;
                   if (t == 3 && n >= 4 && prog) continue;
                   if (t == 3 && n >= 4 && f == F_MULTI && __builtin_popcount(truth) != 1 && truth != 0) continue;
+                } else {
+                  // thorough: unbounded wherever that completes in minutes; the 3-worker/4-claim
+                  // configurations (tens of millions of schedules each when unbounded) run with
+                  // preemption bound 6 (bound 5 with progress_fn), all true-sets
+                  if (big) bound = prog ? 5 : 6;
+                  if (f == F_MULTI && truth != 0 && truth != (1u << n) - 1 && __builtin_popcount(truth) != 1 && t == 3 && n >= 3) continue;  // _multi control flow does not depend on the true-set
                 }
-                out.push_back({(Fn)f, 64, s, n, b, t, truth, (bool)prog, bound});
+                Config c = one(mk((Fn)f, U64, s, (int64_t)n, b, t, truth, prog), bound);
+                c.max_sched = cap;
+                out.push_back(c);
                 // cross-check of the poll-loop canonicalisation: the same configuration un-merged
-                if (prog && s == 5 && t <= 2 && n <= 3 && (thorough || n <= 2)) out.push_back({(Fn)f, 64, s, n, b, t, truth, true, bound, true});
+                if (prog && s == 5 && t <= 2 && n <= 3 && (thorough || n <= 2)) {
+                  c.keep_poll_history = true;
+                  out.push_back(c);
+                }
               }
             }
           }
@@ -185,44 +399,489 @@ std::vector<Config> configs(bool thorough) {
       }
     }
   }
-  // default thread count (0 -> hardware_concurrency, shimmed to 2)
-  out.push_back({F_RANGE, 64, 5, 2, 0, 0, 0, false, -1});
-  out.push_back({F_BLOCKS, 64, 5, 2, 1, 0, 2, false, -1});
-  // near the top of the value type: the cursor overshoot past end_value must not wrap into the range
-  for (size_t t = 1; t <= 3; t++) {
-    out.push_back({F_RANGE, 8, 252, 3, 0, t, 0, false, -1});
-    out.push_back({F_RANGE, 8, 253, 2, 0, t, 1, false, -1});
-    out.push_back({F_BLOCKS, 8, 251, 4, 2, t, 0, false, -1});
-    out.push_back({F_BLOCKS, 8, 252, 3, 1, t, 0, false, -1});
-    out.push_back({F_MULTI, 8, 252, 3, 1, t, 5, false, -1});
-    out.push_back({F_RANGE, 8, 0, 3, 0, t, 0, false, -1});
+  return out;
+}
+
+std::vector<uint32_t> truth_set(uint64_t n, bool all_subsets) {
+  std::vector<uint32_t> v;
+  if (all_subsets && n <= 4) {
+    for (uint32_t t = 0; t < (1u << n); t++) v.push_back(t);
+    return v;
+  }
+  v.push_back(0);
+  if (n == 0) return v;
+  auto add = [&](uint32_t t) { for (auto x : v) if (x == t) return; v.push_back(t); };
+  add(1);                                   // start_value
+  add(1u << (n - 1));                       // the last value
+  add(n >= 32 ? 0xffffffffu : (1u << n) - 1);  // every value
+  if (n >= 3) add(1u << (n / 2));
+  return v;
+}
+
+// start values (ext) that put a range of n values at the places where IntT arithmetic can go wrong
+std::vector<uint64_t> starts_for(Ty ty, uint64_t n, bool wide) {
+  std::vector<uint64_t> s;
+  auto add = [&](uint64_t x) { for (auto y : s) if (y == x) return; s.push_back(x); };
+  uint64_t mx = ty_max(ty), mn = ty_min(ty);
+  add(mx - n);  // [MAX-n, MAX): end_value is the type maximum
+  add(mn);      // [MIN, MIN+n)
+  if (ty_signed(ty)) {
+    add((uint64_t)0 - 1);          // [-1, n-1): crosses zero right after the first value
+    add((uint64_t)0 - n);          // [-n, 0): entirely negative, end_value 0
+    if (n >= 2) add((uint64_t)0 - (n - 1));  // [-(n-1), 1): crosses zero before the last value
+    if (wide) add((uint64_t)0 - n - 7);       // entirely negative, away from zero
+    if (wide) add(1);
+  } else {
+    add(((uint64_t)1 << (ty_bits(ty) - 1)) - 1);  // crosses the sign bit of the same-width signed type
+    if (wide) add(((uint64_t)1 << (ty_bits(ty) - 1)) - n);
+    if (wide) add(1);
+  }
+  return s;
+}
+
+std::vector<Config> configs_types(bool thorough) {
+  std::vector<Config> out;
+  // (a) every instantiation at the interesting places, full interleaving of 1..2 workers (3 for the smallest)
+  for (int tyi = 0; tyi < 8; tyi++) {
+    Ty ty = (Ty)tyi;
+    for (uint64_t n = 1; n <= (thorough ? 4u : 3u); n++) {
+      for (uint64_t s : starts_for(ty, n, thorough)) {
+        for (int f = 0; f < 3; f++) {
+          std::vector<uint64_t> blocks = {0};
+          if (f != F_RANGE) {
+            blocks.clear();
+            for (uint64_t b = 1; b <= n + 1; b++) blocks.push_back(b);  // dividing and non-dividing, and larger than the range
+          }
+          for (uint64_t b : blocks) {
+            bool valid = f == F_RANGE || n % b == 0;
+            for (size_t t = 1; t <= 3; t++) {
+              if (!valid && t > 1) continue;  // rejected before any thread exists
+              if (t == 3 && n > (thorough ? 3u : 2u)) continue;
+              if (t == 3 && !thorough && !(ty == I8 || ty == I64 || ty == U8 || ty == U32)) continue;
+              if (t == 3 && n == 3 && !(ty == I8 || ty == I64 || ty == U8)) continue;
+              for (uint32_t truth : truth_set(n, thorough && n <= 3 && t <= 2)) {
+                if (!valid && truth != 0) continue;
+                if (f == F_MULTI && t == 3 && truth != 0 && truth != (1u << n) - 1) continue;
+                for (int prog = 0; prog < 2; prog++) {
+                  if (prog && (n > 2 || t > 2 || !valid)) continue;
+                  if (prog && !thorough && truth != 0 && truth != (1u << (n - 1))) continue;
+                  out.push_back(one(mk((Fn)f, ty, s, (int64_t)n, b, t, truth, prog)));
+                }
+              }
+            }
+          }
+        }
+      }
+    }
+  }
+  // (b) ranges of 3 values crossing 2^k (and -2^k for signed types) in the wider types: truncation to a narrower
+  //     or differently signed temporary anywhere on the path shows as an outside / skipped value
+  for (Ty ty : {U64, I64, U32, I32, U16, I16}) {
+    for (int k : {7, 8, 15, 16, 31, 32, 63}) {
+      int vb = ty_bits(ty) - (ty_signed(ty) ? 1 : 0);  // value bits
+      if (k >= vb) continue;
+      std::vector<uint64_t> ss = {((uint64_t)1 << k) - 1, ((uint64_t)1 << k) - 2};
+      if (ty_signed(ty)) { ss.push_back((uint64_t)0 - ((uint64_t)1 << k) - 1); ss.push_back((uint64_t)0 - ((uint64_t)1 << k) - 2); }
+      for (uint64_t s : ss) {
+        for (int f = 0; f < 3; f++) {
+          for (uint64_t b : (f == F_RANGE ? std::vector<uint64_t>{0} : std::vector<uint64_t>{1, 3})) {
+            for (size_t t = 1; t <= 2; t++) {
+              for (uint32_t truth : {0u, 4u, 2u}) {
+                if (truth == 2 && !thorough) continue;
+                out.push_back(one(mk((Fn)f, ty, s, 3, b, t, truth)));
+              }
+            }
+          }
+        }
+      }
+    }
+  }
+  // (c) empty and reversed ranges (the set [start,end) is empty: no invocation, result end_value), any thread count,
+  //     including start == end at the type minimum / maximum; block sizes far from the usual on an empty range
+  for (Ty ty : {U64, I64, U8, I8, I32, U16}) {
+    uint64_t mx = ty_max(ty), mn = ty_min(ty);
+    std::vector<std::pair<uint64_t, int64_t>> rs = {{5, 0}, {0, 0}, {mx, 0}, {mn, 0}, {5, -1}, {5, -3}, {mx, -1}, {mx, -4}, {mn + 2, -2}};
+    if (ty_signed(ty)) { rs.push_back({(uint64_t)0 - 2, 0}); rs.push_back({1, -3}); rs.push_back({(uint64_t)0 - 1, -2}); }
+    for (auto& [s, len] : rs) {
+      for (int f = 0; f < 3; f++) {
+        std::vector<uint64_t> blocks = {0};
+        if (f != F_RANGE) {
+          blocks = {1, 2, 3};
+          if (len == 0) { blocks.push_back(mx); blocks.push_back(mx - 1); if (ty_bits(ty) == 64) { blocks.push_back((uint64_t)1 << 31); blocks.push_back((uint64_t)1 << 32); blocks.push_back(((uint64_t)1 << 32) - 1); } }
+        }
+        for (uint64_t b : blocks) {
+          for (size_t t = 1; t <= 3; t++) {
+            if (t == 3 && !(b <= 1)) continue;
+            for (int prog = 0; prog < 2; prog++) {
+              if (prog && (t == 3 || b > 2)) continue;
+              out.push_back(one(mk((Fn)f, ty, s, len, b, t, 0, prog)));
+            }
+          }
+        }
+      }
+    }
+  }
+  // (d) block sizes far from the usual on non-empty ranges (they do not divide: rejected, or - if accepted - at least
+  //     nothing outside the range), single worker
+  for (Ty ty : {U64, I64, U32, I8}) {
+    uint64_t mx = ty_max(ty);
+    std::vector<uint64_t> bs = {mx, mx - 1};
+    if (ty_bits(ty) == 64) for (uint64_t b : {((uint64_t)1 << 31) - 1, (uint64_t)1 << 31, ((uint64_t)1 << 32) - 1, (uint64_t)1 << 32, ((uint64_t)1 << 32) + 1, ((uint64_t)1 << 62)}) bs.push_back(b);
+    for (uint64_t b : bs)
+      for (int f = 1; f < 3; f++)
+        for (uint64_t s : {(uint64_t)5, mx - 3}) out.push_back(one(mk((Fn)f, ty, s, 3, b, 1, 0)));
+  }
+  // (e) long sequential ranges: one worker (every interleaving with the caller), every block size 1..n+1; two workers
+  //     under a preemption bound
+  for (Ty ty : {I64, I8, U8, U64, I32, U16}) {
+    for (uint64_t n : {6ull, 12ull, 30ull}) {
+      if (n == 30 && !thorough && !(ty == I8 || ty == I64)) continue;
+      std::vector<uint64_t> ss;
+      if (ty_signed(ty)) ss = {(uint64_t)0 - n / 2, ty_min(ty), ty_max(ty) - n, (uint64_t)0 - n - 1};
+      else ss = {ty_max(ty) - n, 0, 100};
+      for (uint64_t s : ss) {
+        for (int f = 0; f < 3; f++) {
+          std::vector<uint64_t> blocks = {0};
+          if (f != F_RANGE) {
+            blocks.clear();
+            for (uint64_t b = 1; b <= n + 1; b++) if (n <= 12 || n % b == 0 || b == 4 || b == 7 || b == n + 1) blocks.push_back(b);
+          }
+          for (uint64_t b : blocks) {
+            bool valid = f == F_RANGE || n % b == 0;
+            for (uint32_t truth : truth_set(n, false)) {
+              if (!valid && truth) continue;
+              for (int prog = 0; prog < 2; prog++) {
+                if (prog && (n > 6 || truth)) continue;
+                out.push_back(one(mk((Fn)f, ty, s, (int64_t)n, b, 1, truth, prog)));
+              }
+              if (valid && n == 6 && (b == 0 || b == 2 || b == 3) && (truth == 0 || truth == 8) && (thorough || ty == I64 || ty == I8 || ty == U8))
+                out.push_back(one(mk((Fn)f, ty, s, (int64_t)n, b, 2, truth), thorough ? 3 : 2));
+            }
+          }
+        }
+      }
+    }
+  }
+  // (f) more workers than values
+  for (int f = 0; f < 3; f++)
+    for (uint64_t n = 0; n <= (thorough ? 2u : 1u); n++)
+      for (size_t t = 4; t <= (thorough ? 5u : 4u); t++) {
+        if (t == 5 && n > 0) continue;
+        for (uint32_t truth = 0; truth < (1u << n); truth++) out.push_back(one(mk((Fn)f, n ? I8 : U64, n ? (uint64_t)0 - 1 : 5, (int64_t)n, f == F_RANGE ? 0 : 1, t, truth), n >= 2 ? 3 : -1));
+      }
+  return out;
+}
+
+// spurious failure of compare_exchange_weak as an explorer choice (budget per execution)
+std::vector<Config> configs_spurious(bool thorough) {
+  std::vector<Config> out;
+  for (int budget = 1; budget <= 2; budget++) {
+    for (int f = 0; f < 3; f++) {
+      for (uint64_t n = 1; n <= (thorough ? 4u : 3u); n++) {
+        std::vector<uint64_t> blocks = {0};
+        if (f != F_RANGE) {
+          blocks.clear();
+          for (uint64_t b = 1; b <= n; b++) if (n % b == 0) blocks.push_back(b);
+        }
+        for (uint64_t b : blocks) {
+          for (size_t t = 1; t <= 3; t++) {
+            size_t claims = f == F_RANGE ? n : n / b;
+            if (budget == 2 && !(t <= 2 && claims <= (thorough ? 3u : 2u))) continue;
+            if (t == 3 && claims > (thorough ? 3u : 2u)) continue;
+            if (t == 2 && n == 4 && b == 1 && !thorough) continue;
+            for (uint32_t truth = 0; truth < (1u << n); truth++) {
+              if (f == F_MULTI && t >= 2 && truth != 0 && truth != (1u << n) - 1 && truth != 1) continue;  // control flow independent of the true-set
+              if (t == 3 && claims == 3 && __builtin_popcount(truth) > 1 && truth != (1u << n) - 1) continue;
+              for (int prog = 0; prog < 2; prog++) {
+                if (prog && (t == 3 || claims > 2 || budget == 2)) continue;
+                Config c = one(mk((Fn)f, U64, 5, (int64_t)n, b, t, truth, prog));
+                c.spurious = budget;
+                if (t == 3 && claims == 3 && !thorough) c.bound = 3;
+                out.push_back(c);
+              }
+            }
+          }
+        }
+      }
+    }
+  }
+  // signed / narrow instantiations at the type boundaries with a spurious failure (the retry path recomputes v + 1)
+  for (Ty ty : {I8, U8, I64, I32}) {
+    for (uint64_t s : {ty_min(ty), ty_max(ty) - 2, ty_signed(ty) ? (uint64_t)0 - 1 : (uint64_t)0}) {
+      for (int f = 0; f < 3; f++)
+        for (uint64_t b : (f == F_RANGE ? std::vector<uint64_t>{0} : std::vector<uint64_t>{1, 2}))
+          for (size_t t = 1; t <= 2; t++)
+            for (uint32_t truth : {0u, 2u, 3u}) {
+              Config c = one(mk((Fn)f, ty, s, 2, b, t, truth));
+              c.spurious = 1;
+              out.push_back(c);
+            }
+    }
   }
   return out;
 }
 
-}  // namespace
+std::vector<Config> configs_env(bool thorough) {
+  std::vector<Config> out;
+  // (a) num_threads = 0: every answer of hardware_concurrency() (0 = "not computable", allowed by the standard)
+  for (unsigned hc : {1u, 2u, 3u, 0u}) {
+    for (int f = 0; f < 3; f++) {
+      for (uint64_t n : {0ull, 2ull, 3ull}) {
+        if (hc == 3 && n == 3 && !thorough) continue;
+        for (uint32_t truth : truth_set(n, n <= 2)) {
+          for (int prog = 0; prog < 2; prog++) {
+            if (prog && (hc == 3 || n > 2)) continue;
+            for (Ty ty : {U64, I8}) {
+              if (ty == I8 && (prog || n != 2)) continue;
+              Config c = one(mk((Fn)f, ty, ty == I8 ? (uint64_t)0 - 1 : 5, (int64_t)n, f == F_RANGE ? 0 : 1, 0, truth, prog));
+              c.hc = hc;
+              out.push_back(c);
+            }
+          }
+        }
+      }
+    }
+  }
+  // (b) the defaulted progress_fn argument (parallel_range_default_progress_fn): explored in a forked child because
+  //     a fault inside it is a signal, not an exception
+  for (int f = 0; f < 3; f++)
+    for (Ty ty : {U64, I8, U8, I32})
+      for (uint64_t s : {(uint64_t)0, (uint64_t)5, (uint64_t)0 - 2})
+        for (size_t t = 1; t <= 2; t++)
+          for (uint32_t truth : {0u, 2u}) {
+            if (s == (uint64_t)0 - 2 && !ty_signed(ty)) continue;
+            if (ty != U64 && (t == 2) && !thorough) continue;
+            Config c = one(mk((Fn)f, ty, s, 2, f == F_RANGE ? 0 : (s == 0 ? 2 : 1), t, truth, P_DEFAULT));
+            c.in_child = true;
+            out.push_back(c);
+          }
+  // (c) histories: every ordered pair (and A-B-A triples) of calls that differ in function, IntT, size, worker count
+  //     and hit/no-hit, inside one execution: nothing may be carried from one call to the next
+  std::vector<Call> shapes = {
+      mk(F_RANGE, U64, 5, 2, 0, 1, 0),
+      mk(F_BLOCKS, U64, 5, 4, 2, 2, 0x4),
+      mk(F_MULTI, I8, (uint64_t)0 - 1, 3, 1, 2, 0x5),
+      mk(F_RANGE, I8, ty_min(I8), 2, 0, 2, 0x2),
+      mk(F_BLOCKS, U8, 253, 2, 1, 1, 0, P_COUNTING),
+      mk(F_RANGE, U64, 5, 0, 0, 2, 0),
+      mk(F_MULTI, I8, (uint64_t)0 - 2, 4, 2, 2, 0x2),  // same instantiation as shape 2, overlapping range, different true-set
+      mk(F_BLOCKS, U64, 6, 2, 1, 1, 0x1),              // same instantiation as shape 1, smaller, different hit
+  };
+  for (size_t a = 0; a < shapes.size(); a++)
+    for (size_t b = 0; b < shapes.size(); b++) {
+      Config c;
+      c.calls = {shapes[a], shapes[b]};
+      out.push_back(c);
+    }
+  for (size_t a = 0; a < shapes.size(); a++)
+    for (size_t b = 0; b < shapes.size(); b++) {
+      if (a == b) continue;
+      if (!thorough && (shapes[a].threads > 1 && shapes[b].threads > 1)) continue;
+      Config c;
+      c.calls = {shapes[a], shapes[b], shapes[a]};
+      c.bound = thorough ? -1 : 3;
+      out.push_back(c);
+    }
+  // history with a spurious failure and with the default thread count
+  for (size_t a = 0; a < 4; a++)
+    for (size_t b = 0; b < 4; b++) {
+      Config c;
+      c.calls = {shapes[a], shapes[b]};
+      c.calls[1].threads = 0;
+      c.hc = 2;
+      c.spurious = 1;
+      c.bound = 3;
+      out.push_back(c);
+    }
+  // (d) the same calls made inside a catch handler and from a destructor while another exception propagates
+  for (int ctx : {CTX_IN_CATCH, CTX_IN_UNWIND})
+    for (int f = 0; f < 3; f++)
+      for (size_t t = 1; t <= 2; t++)
+        for (uint32_t truth : {0u, 2u})
+          for (int prog = 0; prog < 2; prog++) {
+            Config c = one(mk((Fn)f, f == 1 ? I8 : U64, f == 1 ? (uint64_t)0 - 1 : 5, 2, f == F_RANGE ? 0 : 1, t, truth, prog));
+            c.ctx = ctx;
+            out.push_back(c);
+          }
+  return out;
+}
 
-VF_SECTION(interleavings, 16, 16, 300) {
-  auto cfgs = configs(r.thorough());
-  uint64_t max_sched = r.thorough() ? 3000000 : 400000;
+// ---- running one family --------------------------------------------------------------------------------
+
+struct ChildResult {
+  vfs::ExploreStats st;
+  std::string died;  // non-empty: the child did not finish normally
+};
+
+// Explores a configuration in a forked child and ships the statistics back through a pipe.
+ChildResult explore_in_child(const Config& c, uint64_t max_sched) {
+  ChildResult cr;
+  int fds[2];
+  if (pipe(fds) < 0) { cr.died = "pipe() failed"; return cr; }
+  fflush(stdout);
+  fflush(stderr);
+  int errfd = memfd_create("c16-child-stderr", 0);
+  pid_t p = fork();
+  if (p == 0) {
+    close(fds[0]);
+    if (errfd >= 0) dup2(errfd, 2);  // the default progress_fn writes a line per poll to stderr; a sanitizer report ends up here too
+    alarm(300);
+    auto st = vfs::explore([&](const std::vector<int>& pf) { return run_cfg(c, pf); }, c.bound, max_sched, [] { return g_outcome; });
+    std::string ch;
+    for (int x : st.failing_choices) ch += std::to_string(x) + " ";
+    std::string msg = vf::fmt("%llu %llu %llu %llu %d %llu %llu %llu\n", (unsigned long long)st.schedules, (unsigned long long)st.states, (unsigned long long)st.transitions,
+        (unsigned long long)st.pruned, (int)st.complete, (unsigned long long)st.outcomes.size(), (unsigned long long)st.schedules_with_spurious, (unsigned long long)st.max_preemptions);
+    msg += ch + "\n" + st.failure + "\n";
+    size_t off = 0;
+    while (off < msg.size()) {
+      ssize_t w = write(fds[1], msg.data() + off, msg.size() - off);
+      if (w <= 0) break;
+      off += (size_t)w;
+    }
+    _exit(0);
+  }
+  close(fds[1]);
+  std::string in;
+  char buf[4096];
+  for (;;) {
+    ssize_t k = read(fds[0], buf, sizeof buf);
+    if (k > 0) in.append(buf, (size_t)k);
+    else if (k < 0 && errno == EINTR) continue;
+    else break;
+  }
+  close(fds[0]);
+  int status = 0;
+  while (waitpid(p, &status, 0) < 0 && errno == EINTR) {}
+  std::string errtxt;
+  if (errfd >= 0) {
+    off_t sz = lseek(errfd, 0, SEEK_END);
+    off_t from = sz > 6000 ? sz - 6000 : 0;
+    errtxt.resize((size_t)(sz - from));
+    ssize_t got = pread(errfd, errtxt.data(), errtxt.size(), from);
+    errtxt.resize(got > 0 ? (size_t)got : 0);
+    close(errfd);
+  }
+  if (!(WIFEXITED(status) && WEXITSTATUS(status) == 0) || in.empty()) {
+    std::string san;
+    size_t e = errtxt.find("ERROR: ");
+    if (e != std::string::npos) {
+      // the sanitizer's headline and its first frames inside phosg
+      san = errtxt.substr(e, errtxt.find('\n', e) - e);
+      size_t pos = e;
+      int frames = 0;
+      while (frames < 3 && (pos = errtxt.find("\n    #", pos)) != std::string::npos) {
+        size_t eol = errtxt.find('\n', pos + 1);
+        std::string line = errtxt.substr(pos + 1, eol - pos - 1);
+        size_t in_ = line.find(" in ");
+        if (in_ != std::string::npos) san += " | " + line.substr(in_ + 4), frames++;
+        pos = eol == std::string::npos ? errtxt.size() : eol - 1;
+        if (eol == std::string::npos) break;
+      }
+      for (auto& ch : san) if ((unsigned char)ch < 32) ch = ' ';
+      // addresses differ from run to run (ASLR): keep the description deterministic
+      for (size_t i = 0; (i = san.find("0x", i)) != std::string::npos;) {
+        size_t j = i + 2;
+        while (j < san.size() && isxdigit((unsigned char)san[j])) j++;
+        san.replace(i, j - i, "ADDR");
+      }
+    }
+    if (!san.empty()) san = " :: " + san;
+    if (WIFSIGNALED(status)) cr.died = vf::fmt("the process was killed by signal %d (%s) inside the call", WTERMSIG(status), strsignal(WTERMSIG(status))) + san;
+    else cr.died = vf::fmt("the process ended abnormally inside the call (exit status %d; a sanitizer report or a fatal signal)", WIFEXITED(status) ? WEXITSTATUS(status) : -1) + san;
+    return cr;
+  }
+  unsigned long long a[8] = {0};
+  int complete = 1;
+  size_t l1 = in.find('\n'), l2 = in.find('\n', l1 + 1);
+  sscanf(in.c_str(), "%llu %llu %llu %llu %d %llu %llu %llu", &a[0], &a[1], &a[2], &a[3], &complete, &a[4], &a[5], &a[6]);
+  cr.st.schedules = a[0]; cr.st.states = a[1]; cr.st.transitions = a[2]; cr.st.pruned = a[3]; cr.st.complete = complete != 0;
+  cr.st.schedules_with_spurious = a[5]; cr.st.max_preemptions = a[6];
+  for (unsigned long long i = 0; i < a[4]; i++) cr.st.outcomes.insert(std::to_string(i));
+  std::string ch = in.substr(l1 + 1, l2 - l1 - 1);
+  for (size_t i = 0; i < ch.size();) {
+    size_t j = ch.find(' ', i);
+    if (j == std::string::npos) break;
+    cr.st.failing_choices.push_back(atoi(ch.substr(i, j - i).c_str()));
+    i = j + 1;
+  }
+  cr.st.failure = in.substr(l2 + 1);
+  while (!cr.st.failure.empty() && cr.st.failure.back() == '\n') cr.st.failure.pop_back();
+  return cr;
+}
+
+// Rough cost estimate (grows like the number of interleavings).  Used only to ORDER the configurations, cheapest
+// first: cases are dealt to the shards round-robin by index, so neighbours of similar cost spread the expensive
+// configurations evenly over the shards, and the first failing case per key stays the simplest one.
+uint64_t weight(const Config& c) {
+  double w = 1;
+  for (auto& cl : c.calls) {
+    uint64_t T = cl.threads ? cl.threads : c.hc;
+    bool valid = cl.fn == F_RANGE || (cl.len >= 0 && cl.block >= 1 && (uint64_t)cl.len % cl.block == 0);
+    uint64_t K = !valid ? 0 : (cl.fn == F_RANGE ? cl.n() : cl.n() / cl.block);
+    double wc = 1;
+    for (uint64_t i = 0; i < T; i++) wc *= (double)(K + 2 + (cl.progress ? 2 : 0));
+    w *= wc;
+  }
+  w *= 1 + 5 * c.spurious;
+  if (w > 1e15) w = 1e15;
+  return (uint64_t)w;
+}
+
+void run_family(vf::Run& r, std::vector<Config> cfgs, uint64_t default_max_sched) {
   uint64_t worst = 0, unbounded = 0, bounded = 0;
+  std::stable_sort(cfgs.begin(), cfgs.end(), [](const Config& a, const Config& b) { return weight(a) < weight(b); });
+  if (getenv("VF_C16_DUMP")) {
+    for (size_t i = 0; i < cfgs.size(); i++) printf("%zu %s\n", i, cfgs[i].str().c_str());
+    return;
+  }
   for (auto& c : cfgs) {
     if (!r.take()) continue;
-    r.note(fn_name[c.fn]);
+    const Call& first = c.calls[0];
+    r.note(c.calls.size() > 1 ? "history" : fn_name[first.fn]);
     if (r.wants_desc()) r.desc(c.str());
-    auto st = vfs::explore([&](const std::vector<int>& p) { r.beat(); return run_cfg(c, p); }, c.bound, max_sched, [] { return g_outcome; });
+    uint64_t max_sched = c.max_sched ? c.max_sched : default_max_sched;
+    vfs::ExploreStats st;
+    std::string died;
+    if (c.in_child) {
+      ChildResult cr = explore_in_child(c, max_sched);
+      st = cr.st;
+      died = cr.died;
+      r.beat();
+    } else {
+      st = vfs::explore([&](const std::vector<int>& p) { r.beat(); return run_cfg(c, p); }, c.bound, max_sched, [] { return g_outcome; });
+    }
     if (st.outcomes.size() > r.counters["max_distinct_outcomes_one_config"]) r.counters["max_distinct_outcomes_one_config"] = st.outcomes.size();
     if (st.outcomes.size() > 1) r.counters["configs_with_more_than_one_outcome"]++;
     r.states += st.states;
     r.transitions += st.transitions;
     r.counters["schedules"] += st.schedules;
     r.counters["pruned_at_visited_state"] += st.pruned;
+    if (c.spurious) {
+      r.counters["schedules_in_configs_with_spurious_budget"] += st.schedules;
+      r.counters["schedules_with_a_spurious_cas_failure"] += st.schedules_with_spurious;
+      r.counters["states_in_configs_with_spurious_budget"] += st.states;
+      r.counters["spurious_choice_points(states)"] += st.spurious_choice_points;
+      if (st.max_spurious_in_one > r.counters["max_spurious_failures_in_one_schedule"]) r.counters["max_spurious_failures_in_one_schedule"] = st.max_spurious_in_one;
+    } else {
+      r.counters["schedules_in_configs_without_spurious_budget"] += st.schedules;
+      r.counters["states_in_configs_without_spurious_budget"] += st.states;
+    }
     if (st.schedules > worst) worst = st.schedules;
     if (getenv("VF_C16_STATS")) fprintf(stderr, "STATS %llu schedules %llu states :: %s\n", (unsigned long long)st.schedules, (unsigned long long)st.states, c.str().c_str());
     if (st.max_preemptions > r.counters["max_preemptions_seen"]) r.counters["max_preemptions_seen"] = st.max_preemptions;
     (c.bound < 0 ? unbounded : bounded)++;
-    if (!st.complete && st.failure.empty()) { r.exhaustive = false; r.ok("schedule-cap-hit"); }
-    if (c.threads != 1 && c.n >= 2) r.nontriv();
+    bool nontrivial = false;
+    for (auto& cl : c.calls) nontrivial |= (cl.threads != 1 && cl.n() >= 2);
+    if (nontrivial) r.nontriv();
+    // key = [history:]<function of the failing call>:<kind>; "history:" only when an earlier call precedes the failing one
+    auto key_fn_for = [&](size_t k) { return (k > 0 ? std::string("history:") : std::string()) + fn_name[c.calls[k < c.calls.size() ? k : 0].fn]; };
+    std::string key_fn = key_fn_for(0);
+    if (!died.empty()) {
+      // one defect, one key: a fault with the defaulted progress_fn argument is attributed to that function
+      r.fail(first.progress == P_DEFAULT ? std::string("parallel_range_default_progress_fn:crash") : key_fn + ":crash", [&] { return c.str() + " :: " + died; });
+      continue;
+    }
+    if (!st.complete && st.failure.empty()) { r.exhaustive = false; r.ok("schedule-cap-hit"); continue; }
     if (!st.failure.empty()) {
       std::string ch;
       for (int x : st.failing_choices) ch += std::to_string(x) + " ";
@@ -231,33 +890,77 @@ VF_SECTION(interleavings, 16, 16, 300) {
       bool abort_kind = st.failure.rfind("deadlock", 0) == 0 || st.failure.rfind("livelock", 0) == 0;
       bool leaves_fibers = st.failure.find("not joined") != std::string::npos || st.failure.find("joinable") != std::string::npos;
       bool reproduced = true;
-      if (!engine && !abort_kind && !leaves_fibers) {
+      bool with_spurious = false;
+      if (!engine && !abort_kind && !leaves_fibers && !c.in_child) {
         for (int k = 0; k < 2; k++) {
           std::string again = run_cfg(c, st.failing_choices);
           auto& x = vfs::Scheduler::get().ex;
+          if (again.empty() && x.stale_atomic) again = st.failure.rfind("state carried", 0) == 0 ? st.failure : "stale";
           if (again.empty() && x.unjoined_destroyed) again = "a joinable thread object was destroyed (std::thread would call std::terminate)";
           if (again != st.failure) reproduced = false;
+          with_spurious = x.spurious_injected > 0;
         }
       }
+      // does the code under test still have parked (never resumed) worker fibers?  Only then the shard must stop.
+      bool parked = false;
+      {
+        auto& S = vfs::Scheduler::get();
+        for (size_t i = 1; i < S.nthreads(); i++) parked |= !S.finished((int)i);
+      }
       std::string kind = engine ? "engine-divergence" : abort_kind ? st.failure.substr(0, 8) : !reproduced ? "engine-nonreproducible" :
+          st.failure.find("state carried") != std::string::npos ? "state-carried-between-calls" :
           st.failure.find("outside") != std::string::npos ? "outside-range" : st.failure.find("twice") != std::string::npos ? "invoked-twice" :
           st.failure.find("instead of end_value") != std::string::npos ? "wrong-return-no-hit" : st.failure.find("did not return true") != std::string::npos ? "false-hit-returned" :
           st.failure.find("joinable") != std::string::npos || st.failure.find("not joined") != std::string::npos ? "not-joined" :
+          st.failure.find("on a valid call") != std::string::npos ? "threw-on-valid-call" :
+          st.failure.find("thread_num") != std::string::npos ? "thread-num" :
           st.failure.find("_multi") != std::string::npos ? "multi-result" : st.failure.find("invoked 0 times") != std::string::npos ? "value-skipped" : "other";
-      std::string key = std::string(fn_name[c.fn]) + (c.width == 8 ? "<uint8>" : "") + ":" + kind;
+      if (with_spurious) kind += ":after-spurious-cas-failure";
+      bool zero_workers = false;
+      for (auto& cl : c.calls) zero_workers |= (cl.threads == 0 && c.hc == 0);
+      if (zero_workers) kind += ":hardware_concurrency-0";
+      size_t fc = (abort_kind || engine || c.in_child) ? 0 : g_fail_call;
+      if (c.in_child && c.calls.size() == 1) fc = 0;
+      std::string key = key_fn_for(fc) + ":" + kind;
       r.fail(key, [&] { return c.str() + " :: " + st.failure + vf::fmt(" :: after %llu schedules; failing schedule (choice index at each choice point) = [ ", (unsigned long long)st.schedules) + ch + "]"; });
-      if (abort_kind || engine || kind == "not-joined") {
+      if (((abort_kind || kind.rfind("not-joined", 0) == 0) && parked) || engine) {
         // parked worker threads cannot be reclaimed: stop this shard here (reported as incomplete)
         r.exhaustive = false;
         r.finish_now();
       }
-    } else r.ok(st.schedules == 1 ? "single-schedule" : st.schedules < 100 ? "lt-100-schedules" : st.schedules < 10000 ? "lt-10k-schedules" : "ge-10k-schedules");
+    } else {
+      r.ok(st.schedules == 1 ? "single-schedule" : st.schedules < 100 ? "lt-100-schedules" : st.schedules < 10000 ? "lt-10k-schedules" : "ge-10k-schedules");
+      if (!c.in_child && !g_class.empty()) r.counters["last-schedule-class:" + g_class]++;
+    }
   }
-  r.counters["max_schedules_one_config"] = worst;
-  r.counters["configs_unbounded"] = unbounded;
-  r.counters["configs_preemption_bounded"] = bounded;
-  r.bound = r.thorough() ? "all interleavings (no preemption bound) for every configuration: 3 functions x n<=4 x threads<=3 x all true-sets x block sizes x progress on/off; uint8 top-of-range configs"
-                         : "all interleavings for threads<=2 (n<=4) and threads=3 (n<=3; with progress_fn n=3: preemption bound 3); threads=3,n=4: preemption bound 2, no progress_fn; uint8 top-of-range configs";
+  if (worst > r.counters["max_schedules_one_config"]) r.counters["max_schedules_one_config"] = worst;
+  r.counters["configs_unbounded"] += unbounded;
+  r.counters["configs_preemption_bounded"] += bounded;
+}
+
+}  // namespace
+
+VF_SECTION(interleavings, 16, 16, 300) {
+  run_family(r, configs_base(r.thorough()), r.thorough() ? 3000000 : 400000);
+  r.bound = r.thorough() ? "uint64_t, 3 functions x n<=4 x threads<=3 x all true-sets x dividing block sizes x progress on/off: all interleavings (no preemption bound) except 3 workers making 4 single-value claims (preemption bound 6; 5 with progress_fn)"
+                         : "uint64_t: all interleavings for threads<=2 (n<=4) and threads=3 (n<=3; with progress_fn n=3: preemption bound 3); threads=3,n=4: preemption bound 2, no progress_fn";
+}
+
+VF_SECTION(types_bounds, 16, 16, 300) {
+  run_family(r, configs_types(r.thorough()), r.thorough() ? 3000000 : 400000);
+  r.bound = r.thorough() ? "IntT in {u,i}{8,16,32,64}: ranges of 1..4 values at type min / max / crossing zero / crossing the sign bit, block sizes 1..n+1 (valid and invalid), threads 1..3, all true-sets for n<=3; ranges crossing +-2^k (k=7..63); empty and reversed ranges with block sizes up to the type maximum; sequential ranges of 6/12/30 values (1 worker unbounded, 2 workers preemption bound 3); 4-5 workers on 0..2 values"
+                         : "IntT in {u,i}{8,16,32,64}: ranges of 1..3 values at type min / max / crossing zero / crossing the sign bit, block sizes 1..n+1 (valid and invalid), threads 1..2 (3 for n<=2 in four types), true-sets {none, first, last, all, middle}; ranges crossing +-2^k (k=7..63); empty and reversed ranges with block sizes up to the type maximum; sequential ranges of 6/12/30 values (1 worker unbounded, 2 workers preemption bound 2); 4 workers on 0..1 values";
+}
+
+VF_SECTION(spurious_cas, 16, 16, 300) {
+  run_family(r, configs_spurious(r.thorough()), r.thorough() ? 3000000 : 400000);
+  r.bound = r.thorough() ? "every interleaving x every placement of <=1 spurious compare_exchange_weak failure: uint64_t n<=4, threads<=3 (<=3 claims for 3 workers, no preemption bound), all true-sets; <=2 failures: threads<=2, <=3 claims; signed/narrow types at the type boundaries"
+                         : "every interleaving x every placement of <=1 spurious compare_exchange_weak failure: uint64_t n<=3, threads<=3 (<=2 claims for 3 workers), all true-sets; <=2 failures: threads<=2, <=2 claims; signed/narrow types at the type boundaries";
+}
+
+VF_SECTION(env_histories, 16, 16, 300) {
+  run_family(r, configs_env(r.thorough()), r.thorough() ? 3000000 : 400000);
+  r.bound = "num_threads=0 with hardware_concurrency() in {1,2,3,0}; defaulted progress_fn argument (4 IntT, start 0 / 5 / -2, 1-2 workers; explored in a child process); histories: all ordered pairs and A-B-A triples of 8 call shapes inside one execution (triples preemption-bounded in quick), pairs with a spurious CAS failure and default thread count; calls inside a catch handler and from a destructor during unwinding";
 }
 
 VF_MAIN()
